@@ -22,6 +22,7 @@ TRUSTED = [
     'hand model coq/model/M_spectra.v (absmax, w = 2*pi/T with placeholder, 6*dt cut, object step rule, np.interp refinement, energy sums); tie = correspondence of this run (model/K_C03.v)',
     'response rows given to the Q-model are the implementation\'s own response_series output on the same (possibly refined) record; that function is tied by K_C01 (C01)',
     'object-level factor: dt/target_dt is compared in exact arithmetic; cases whose float quotient is within 1e-9 of an integer are skipped and counted (float rounding of that quotient is C14\'s subject)',
+    'translator/py2coq_sdof_loop.py (Python ast, fail-closed, structural location of the statements) for `w = 2 * np.pi / periods`, `svs = w * sds`, `sas = w ** 2 * sds` and `np.where(periods < dt * 6, absmax(motion), sas)`: reads the array statements as scalar statements per period (accepted forms in the header of coq/gen/Gen_sdof_loop.v); the numpy broadcasting / np.where semantics behind that reading is tied by the correspondence',
     'exact real arithmetic in the theorems; Python harness',
 ]
 
@@ -68,7 +69,9 @@ def exact_factor(dt, ratio, minp):
 def run(rep, rng, tier):
     import eqsig
     from eqsig import sdof
-    rep.prove('Prop_C03')
+    # the pseudo-spectral lines and the 6 dt cut are re-extracted from the source text on every run (Gen_sdof_loop.v, shared with C01)
+    rep.prove('Prop_C03', gen_failed=c01.regen_loop())
+    rep.prove('Prop_C03_e2e')
     N = 1 if tier == 'quick' else 8
     cases = []
     fragile = 0
